@@ -1,6 +1,6 @@
 TITLE = "Refining structure does not move content in time"
 IMPORTS = ["From Coq Require Import ZArith List Bool.",
-           "From MV Require Import Base.Res Model.EventTree Model.TreeOps Proofs.TreeLemmas Proofs.Split Proofs.Extend Proofs.Refine Proofs.RefineSeq Proofs.RefineFinal.",
+           "From MV Require Import Base.Res Model.EventTree Model.TreeOps Proofs.TreeLemmas Proofs.Split Proofs.Extend Proofs.Refine Proofs.RefineSeq Proofs.RefineFinal Proofs.NoAttr.",
            "Import ListNotations.", "Open Scope Z_scope."]
 ENTRIES = [
  ("C15_split_child_sequence", "split_child_at_seq", "dividing the child of a sequence under time t: what is active at every time and the total duration stay the same, a boundary exists at t afterwards"),
@@ -20,8 +20,10 @@ ENTRIES = [
  ("C15_extend_content", "extend_content_full", ""),
  ("C15_extend_idempotent", "extend_idempotent", "doing it twice equals doing it once"),
  ("C15_extend_empty_simultaneity_rejected", "extend_empty_sim", ""),
+ ("C15_attribute_error_only_from_leaf", "split_child_at_attribute_error_only_from_leaf", "the error protocol Concurrence.split_child_at relies on when it catches AttributeError around the call on a child: in the model that error is the answer of a leaf and of nothing else"),
 ]
-EXTRA = """Print divided. Print has_boundary. Print rect_row. Print extended.
+EXTRA = """Print na. Print is_leaf.
+Print divided. Print has_boundary. Print rect_row. Print extended.
 
 Example C15_example :
   let e := Sim (mkMeta 7 0) [Seq meta0 [Leaf 2 1; Leaf 1 2]; Seq meta0 [Leaf 3 3]] in
